@@ -3,4 +3,4 @@
 D="$1"; P="$2"
 git -C /repo apply "$D/patch.diff" || exit 1
 VERIF_OUT=/tmp/x /verif/vcheck "$P" quick 2>&1 | grep -v "^  analysed\|^VIOLATION" | cut -c1-420
-git -C /repo checkout -- .
+git -C /repo checkout -- . && git -C /repo clean -fdq -- acnportal
